@@ -807,11 +807,14 @@ class DateParserPlugin(plugins.Plugin):
             ts = timespan(start, end).disambiguated(self.basedate)
             start, end = ts.start, ts.end
         elif start:
-            start = start.disambiguated(self.basedate)
+            # (An absolute date such as "now" is already a datetime)
+            if isinstance(start, (adatetime, timespan)):
+                start = start.disambiguated(self.basedate)
             if isinstance(start, timespan):
                 start = start.start
         elif end:
-            end = end.disambiguated(self.basedate)
+            if isinstance(end, (adatetime, timespan)):
+                end = end.disambiguated(self.basedate)
             if isinstance(end, timespan):
                 end = end.end
         drn = DateRangeNode(node.fieldname, start, end, boost=node.boost)
